@@ -320,6 +320,26 @@ int _GD_CalculateEntry(DIRFILE *restrict D, gd_entry_t *restrict E, int err)
     case GD_SBIT_ENTRY:
       e = _GD_GetScalar2(D, E, 0, GD_INT_TYPE, &E->EN(bit,bitnum), err);
       e |= _GD_GetScalar2(D, E, 1, GD_INT_TYPE, &E->EN(bit,numbits), err);
+      /* values supplied through scalar fields need the checks the parser makes
+       * on literals: they end up as shift counts */
+      if (!e && (E->scalar[0] || E->scalar[1])) {
+        if (E->EN(bit,numbits) < 1) {
+          if (err)
+            _GD_SetError(D, GD_E_BAD_ENTRY, GD_E_ENTRY_NUMBITS, NULL,
+                E->EN(bit,numbits), NULL);
+          e = 1;
+        } else if (E->EN(bit,bitnum) < 0) {
+          if (err)
+            _GD_SetError(D, GD_E_BAD_ENTRY, GD_E_ENTRY_BITNUM, NULL,
+                E->EN(bit,bitnum), NULL);
+          e = 1;
+        } else if (E->EN(bit,bitnum) + E->EN(bit,numbits) - 1 > 63) {
+          if (err)
+            _GD_SetError(D, GD_E_BAD_ENTRY, GD_E_ENTRY_BITSIZE, NULL,
+                E->EN(bit,bitnum) + E->EN(bit,numbits), NULL);
+          e = 1;
+        }
+      }
       break;
     case GD_PHASE_ENTRY:
       e = _GD_GetScalar2(D, E, 0, GD_INT64, &E->EN(phase,shift), err);
@@ -701,6 +721,14 @@ int gd_hide(DIRFILE *D, const char *field_code) gd_nothrow
     else if (!(E->flags & GD_EN_HIDDEN)) {
       E->flags |= GD_EN_HIDDEN;
       D->fragment[E->fragment_index].modified = 1;
+      /* which lists the field appears in has changed */
+      if (E->e->n_meta == -1) {
+        E->e->p.parent->e->fl.value_list_validity = 0;
+        E->e->p.parent->e->fl.entry_list_validity = 0;
+      } else {
+        D->fl.value_list_validity = 0;
+        D->fl.entry_list_validity = 0;
+      }
     }
   }
 
@@ -748,6 +776,14 @@ int gd_unhide(DIRFILE *D, const char *field_code) gd_nothrow
     else if (E->flags & GD_EN_HIDDEN) {
       E->flags &= ~GD_EN_HIDDEN;
       D->fragment[E->fragment_index].modified = 1;
+      /* which lists the field appears in has changed */
+      if (E->e->n_meta == -1) {
+        E->e->p.parent->e->fl.value_list_validity = 0;
+        E->e->p.parent->e->fl.entry_list_validity = 0;
+      } else {
+        D->fl.value_list_validity = 0;
+        D->fl.entry_list_validity = 0;
+      }
     }
   }
 
